@@ -64,9 +64,13 @@ type nodeCfg struct {
 	writeTO     time.Duration
 	idleTO      time.Duration
 	eps         []*epCfg
+	shared      *dialect.Dialect // when set: the Dialect value is one that another node of the process uses too
 }
 
 func (c *nodeCfg) dialect() *dialect.Dialect {
+	if c.shared != nil {
+		return c.shared
+	}
 	switch c.dialectKind {
 	case 1:
 		return nil
